@@ -891,7 +891,17 @@ def _foreign(acc, T, P, e, fname, f):
 
 DUNDERS = ("__add__", "__radd__", "__sub__", "__rsub__", "__mul__", "__rmul__", "__truediv__", "__rtruediv__", "__floordiv__", "__mod__",
            "__neg__", "__pos__", "__abs__", "__eq__", "__ne__", "__lt__", "__le__", "__gt__", "__ge__", "__hash__", "__repr__", "__str__",
-           "__format__", "__contains__", "__iter__", "__len__", "__and__", "__or__", "__bool__", "__getitem__", "__invert__")
+           "__format__", "__contains__", "__iter__", "__len__", "__and__", "__or__", "__bool__", "__getitem__", "__invert__",
+           "__xor__", "__matmul__", "__pow__", "__rfloordiv__", "__rmod__", "__rand__", "__ror__", "__rxor__", "__rpow__", "__next__",
+           "__iadd__", "__isub__", "__imul__", "__itruediv__", "__ifloordiv__", "__imod__", "__iand__", "__ior__", "__ixor__", "__ipow__",
+           "__imatmul__")
+import operator as _op  # noqa: E402
+
+# binary operator routes: dunder -> (symbol, plain operator, augmented operator)
+BINOPS = {"__add__": ("+", _op.add, _op.iadd), "__sub__": ("-", _op.sub, _op.isub), "__mul__": ("*", _op.mul, _op.imul),
+          "__truediv__": ("/", _op.truediv, _op.itruediv), "__floordiv__": ("//", _op.floordiv, _op.ifloordiv), "__mod__": ("%", _op.mod, _op.imod),
+          "__and__": ("&", _op.and_, _op.iand), "__or__": ("|", _op.or_, _op.ior), "__xor__": ("^", _op.xor, _op.ixor),
+          "__pow__": ("**", _op.pow, _op.ipow), "__matmul__": ("@", _op.matmul, _op.imatmul)}
 _ADDR = re.compile(r" object at 0x[0-9a-fA-F]+")
 
 
@@ -1170,6 +1180,27 @@ def calls_for(cls, v, pools, tier, skipped, maxcombo):
     return out
 
 
+def binop_args(cls, pools, tier, skipped, maxcombo):
+    """[(dunder, symbol, plain op, augmented op, argument)] for every binary operator the class supports."""
+    out = []
+    for label, kind, name, plist in menu(cls, pools, tier, skipped):
+        if name in BINOPS and kind == "method" and len(plist) == 1:
+            sym, plain, aug = BINOPS[name]
+            for x in plist[0][2][:maxcombo + 1]:
+                out.append((name, sym, plain, aug, x))
+    return out
+
+
+def operator_calls(cls, v, pools, tier, skipped, maxcombo):
+    """Augmented-assignment and reflected routes of every supported binary operator, as calls for the sequence exploration."""
+    out = []
+    for i, (name, sym, plain, aug, x) in enumerate(binop_args(cls, pools, tier, skipped, maxcombo)):
+        out.append(("aug:v %s= arg#%d" % (sym, i), (lambda aug=aug, x=x: aug(v, x)), [v, x]))
+        if x is not None:
+            out.append(("reflected:arg %s v#%d" % (sym, i), (lambda plain=plain, x=x: plain(x, v)), [v, x]))
+    return out
+
+
 def _spread_product(pools_i, maxcombo):
     """Product order that varies every position early (diagonal first), so small caps still touch each pool entry."""
     n = max(len(p) for p in pools_i)
@@ -1208,6 +1239,16 @@ def _consume(r):
             except Exception:  # noqa: BLE001
                 pass
         r.build()
+
+
+def _quiet(thunk):
+    """Like _run but leaves the result alone."""
+    try:
+        return thunk()
+    except Exception as x:  # noqa: BLE001
+        if exc_origin(x) == "harness" and not isinstance(x, (TypeError, AttributeError, ValueError, OverflowError, NotImplementedError, StopIteration)):
+            raise
+        return x
 
 
 def _run(thunk):
@@ -1270,7 +1311,7 @@ def _immut_worker(args, acc):
     for idx in idxs:
         e = T.entries[idx]
         v = e.value
-        calls = calls_for(T.cls, v, pools, tier, skipped, maxcombo)
+        calls = calls_for(T.cls, v, pools, tier, skipped, maxcombo) + operator_calls(T.cls, v, pools, tier, skipped, maxcombo)
         base = Baselines()
         base.add(v)
         for _l, _t, ops in calls:
@@ -1335,10 +1376,115 @@ def _immut_worker(args, acc):
                 acc.count(transitions=1, evaluations=1, nontrivial=1)
                 _run(t2)
                 verify(o1 + o2, [l1, "result." + l2])
+        _augmented_stage(acc, T, P, e, v, pools, tier, skipped, maxcombo, verify)
+        _iterator_stage(acc, T, P, e, v, verify)
         acc.sample({"type": T.name, "operand": e.label, "calls": len(calls), "first calls": [c[0] for c in calls[:5]]})
     if skipped:
         acc.note("menu members skipped (%s)" % T.name, sorted(skipped))
     return acc
+
+
+def _augmented_stage(acc, T, P, e, v, pools, tier, skipped, maxcombo, verify):
+    """x = v; x <op>= arg  must behave as  x = v <op> arg: same result (or both refuse), and every other reference to the
+    left operand (a second name, a list element, a dictionary key) stays observably what it was."""
+    for name, sym, plain, aug, x in binop_args(T.cls, pools, tier, skipped, maxcombo):
+        acc.count(transitions=2, evaluations=1)
+        case = {"type": T.name, "value": e.label, "sequence": ["x = v; x %s= arg" % sym]}
+        second_name = v
+        holder = [v]
+        try:
+            table = {v: "key"}
+        except TypeError:
+            table = None
+        r_plain = _run(lambda: plain(v, x))
+        target = v
+        r_aug = _run(lambda: aug(target, x))
+        verify([v, x], ["x = v; x %s= arg" % sym])
+        if second_name is not v or holder[0] is not v:
+            raise RuntimeError("harness: aliases lost")
+        pe, ae = isinstance(r_plain, Exception), isinstance(r_aug, Exception)
+        if pe != ae or (pe and type(r_plain) is not type(r_aug)):
+            acc.violation("%s/augmented:%s=/outcome" % (P, sym), "with v = %s: v %s arg gives %r but x = v; x %s= arg gives %r"
+                          % (e.label, sym, _trim(r_plain), sym, _trim(r_aug)), case)
+        elif not pe:
+            same = type(r_plain) is type(r_aug) and _quiet(lambda: r_plain == r_aug) is True
+            if not same and observe(r_plain) != observe(r_aug):
+                acc.violation("%s/augmented:%s=/result" % (P, sym), "with v = %s: v %s arg is %r but x = v; x %s= arg leaves x = %r"
+                              % (e.label, sym, _trim(observe(r_plain)), sym, _trim(observe(r_aug))), case)
+            acc.outcome("augmented assignment %s=: %s" % (sym, "returns the left operand itself" if r_aug is v else "returns a new value"))
+        else:
+            acc.outcome("augmented assignment %s=: refused like the plain operator (%s)" % (sym, type(r_aug).__name__))
+        if table is not None:
+            fresh = _quiet(e.build)
+            found = _quiet(lambda: table.get(fresh))
+            if found != "key" or _quiet(lambda: v in table) is not True:
+                acc.violation("%s/augmented:%s=/dict-key" % (P, sym), "a dictionary keyed by %s no longer finds it (or an equal, separately built "
+                              "value) after x = v; x %s= arg: lookup gives %r" % (e.label, sym, found), case)
+
+
+_ITER_N = 6
+
+
+def _iterator_stage(acc, T, P, e, v, verify):
+    """Iteration is part of what a value shows: it must not depend on other iterations in progress over the same value."""
+    if not _owner_is_pyoda(T.cls, "__iter__"):
+        return
+    lab = ["iter(v)"]
+    case = {"type": T.name, "value": e.label, "sequence": lab}
+
+    def prefix(it):
+        return [observe(x) for x in itertools.islice(it, _ITER_N)]
+    first = _quiet(lambda: prefix(iter(v)))
+    if isinstance(first, Exception) or not first:
+        acc.outcome("%s: iter() refused or empty (%s)" % (T.name, type(first).__name__))
+        return
+    k = len(first)
+    acc.count(transitions=6, evaluations=6, nontrivial=1)
+
+    def law(name, fn, what):
+        r = _quiet(fn)
+        if isinstance(r, Exception):
+            acc.violation("%s/iterator/%s" % (P, name), "%s over %s raised %s: %s" % (what, e.label, type(r).__name__, str(r)[:200]), case)
+        elif r is not True:
+            acc.violation("%s/iterator/%s" % (P, name), "%s over %s: %s; a single iteration gives %s" % (what, e.label, _trim(r), _trim(first)), case)
+
+    law("returns-self", lambda: True if iter(v) is not v else "iter(v) is v: the value is its own (stateful) iterator", "iter(v)")
+
+    def interleaved():
+        i1, i2 = iter(v), iter(v)
+        a, b = [], []
+        for _ in range(k):
+            a.append(observe(next(i1)))
+            b.append(observe(next(i2)))
+        return True if (a == first and b == first) else "two interleaved iterators give %r and %r" % (a, b)
+    law("interleaved", interleaved, "two interleaved iterators")
+
+    def nested():
+        n = sum(1 for _x in itertools.islice(v, k) for _y in itertools.islice(v, k))
+        return True if n == k * k else "nested loops over the first %d elements visit %d pairs, expected %d" % (k, n, k * k)
+    law("nested-loops", nested, "nested loops")
+
+    def zipped():
+        pairs = [(observe(x), observe(y)) for x, y in itertools.islice(zip(v, v), k)]
+        return True if pairs == [(x, x) for x in first] else "zip(v, v) gives %r" % (pairs,)
+    law("zip", zipped, "zip(v, v)")
+
+    def list_inside():
+        outer = []
+        for x in itertools.islice(v, k):
+            outer.append(observe(x))
+            prefix(iter(v))
+        return True if outer == first else "a loop that iterates v again inside its body sees %r" % (outer,)
+    law("iteration-inside-loop", list_inside, "list(v) inside a loop over v")
+
+    def partial():
+        it = iter(v)
+        next(it)
+        verify([v], ["next(iter(v))"])
+        again = prefix(iter(v))
+        return True if again == first else "after a partial iteration a new iteration gives %r" % (again,)
+    law("after-partial-iteration", partial, "a new iteration after a partial one")
+    acc.outcome("%s: iterator protocol checked (%d elements)" % (T.name, k))
 
 
 def _trim(o):
